@@ -28,6 +28,9 @@ inductive Ty where
   | map (k v : Ty)
   | pair (a b : Ty)
   | unit
+  /-- a column whose state prefix is a fixed serialization version (`ColJSONStr`: version 1 over a
+  string column) -/
+  | versioned (v : Nat) (t : Ty)
   deriving DecidableEq, Repr, Inhabited
 
 /-- Column contents.  `lc` and `enumStr` hold their *logical* rows (`Values`), everything else
@@ -45,6 +48,7 @@ inductive Col where
   | map (offsets : List Nat) (keys vals : Col)
   | pair (a b : Col)
   | unit (n : Nat)
+  | versioned (v : Nat) (c : Col)
   deriving DecidableEq, Repr, Inhabited
 
 def Col.ty : Col → Ty
@@ -60,6 +64,7 @@ def Col.ty : Col → Ty
   | .map _ k v => .map k.ty v.ty
   | .pair a b => .pair a.ty b.ty
   | .unit _ => .unit
+  | .versioned v c => .versioned v c.ty
 
 /-- `Rows()` -/
 def Col.rows : Col → Nat
@@ -75,6 +80,7 @@ def Col.rows : Col → Nat
   | .map offs _ _ => offs.length
   | .pair a _ => a.rows          -- ColTuple.Rows() = first column's rows
   | .unit n => n
+  | .versioned _ c => c.rows
 
 /-- the empty column of a type (a fresh or reset target) -/
 def Ty.empty : Ty → Col
@@ -90,6 +96,7 @@ def Ty.empty : Ty → Col
   | .map k v => .map [] k.empty v.empty
   | .pair a b => .pair a.empty b.empty
   | .unit => .unit 0
+  | .versioned v t => .versioned v t.empty
 
 /-! ### helpers -/
 
@@ -205,6 +212,7 @@ def encState : Col → Bytes → Bytes
   | .lc _ _, buf => buf ++ i64le 1   -- sharedDictionariesWithAdditionalKeys; scalar index has no state
   | .map _ k v, buf => encState v (encState k buf)
   | .pair a b, buf => encState b (encState a buf)
+  | .versioned v c, buf => encState c (buf ++ i64le v)
   | _, buf => buf
 
 /-- wire image of a scalar dictionary column (the LowCardinality index) -/
@@ -241,6 +249,7 @@ def encCol : Col → Bytes → Bytes
     else encCol v (encCol k (buf ++ (offs.map i64le).flatten))
   | .pair a b, buf => encCol b (encCol a buf)
   | .unit _, buf => buf
+  | .versioned _ c, buf => encCol c buf
 
 /-- `Prepare` succeeds (every enum value is in its table), recursively -/
 def encOK : Col → Bool
@@ -249,6 +258,7 @@ def encOK : Col → Bool
   | .nullable _ v => encOK v
   | .map _ k v => encOK k && encOK v
   | .pair a b => encOK a && encOK b
+  | .versioned _ c => encOK c
   | _ => true
 
 /-! ### decoding -/
@@ -385,6 +395,9 @@ def decCol (cfg : Cfg) : Ty → Nat → Parser Col
     let y ← decCol cfg b rows
     Parser.pure (.pair x y)
   | .unit, rows => Parser.pure (.unit rows)
+  | .versioned v t, rows => do
+    let c ← decCol cfg t rows
+    Parser.pure (.versioned v c)
 
 /-- `DecodeState` -/
 def decState : Ty → Parser Unit
@@ -395,6 +408,10 @@ def decState : Ty → Parser Unit
     Parser.guard (v == 1)
   | .map k v => do decState k; decState v
   | .pair a b => do decState a; decState b
+  | .versioned v t => do
+    let x ← Parser.le 8
+    Parser.guard (x == v % 18446744073709551616)     -- the version is written as a UInt64
+    decState t
   | _ => Parser.pure ()
 
 /-! ### row accessors (C06: every accessor works for every row index below `Rows()`) -/
@@ -410,6 +427,7 @@ def accessOK : Col → Bool
     sortedB offs && decide (offs.getLast?.getD 0 ≤ k.rows) && decide (offs.getLast?.getD 0 ≤ v.rows)
       && accessOK k && accessOK v
   | .pair a b => accessOK a && accessOK b
+  | .versioned _ c => accessOK c
   | _ => true
 
 end Col
